@@ -7,21 +7,27 @@ PROVE  coq/Properties/C16.v: masking cannot re-create the secret (C16_mask, side
 GEN    Facts_C16.v from the AST of simplecmd.py, git.py, bert_e.py, git_host/base.py, github and bitbucket
        clients and from the live classes: message templates (split at their placeholders), which
        arguments go through mask_pwd, how each `raise CommandError` is linked (`from err` / implicit
-       context / `from None`), the default-mask line of Repository.cmd, the CommandError wrappers, what
+       context / `from None`), whether the clean-up after a timeout (killpg, second communicate) is inside
+       try/except, the default-mask line of Repository.cmd, the CommandError wrappers, what
        BertESession.request interpolates in its log calls, whether _get_installation_token prints its
        headers, which function quotes the password in the URL builders and in the mask.  Fail-closed.
 CORR   (a) replace_all / mask_pwd / quote_plus against str.replace / urllib.parse.quote_plus;
        (b) the real BertE.process_task -> BertE.process -> git.Repository.{cmd,checkout,push,push_all} ->
            simplecmd.cmd -> /bin/sh -> harness/gitshim/git (a scripted stand-in for git found on PATH that
-           prints a chosen text and exits / hangs / is killed; OS errors are injected by a Popen subclass
-           whose communicate() raises) against the model's emission list, literally and in order:
+           prints a chosen text and exits or hangs; OS errors, and errors of the clean-up after a timeout,
+           are injected by a Popen subclass whose first / second communicate() raises) against the model's
+           emission list, literally and in order (the command line is observed where git.py hands it to
+           simplecmd.cmd; for Repository.cmd(template, args) it is also recomputed with shlex.quote):
            log records (root handler), rendered exception chains, return value, str(err), job.status,
            job.details;
        (c) the real github.Client (password and GitHub-App flows, real JWT signing) over a scripted
            requests transport (HTTPAdapter.send patched), incl. 4xx/5xx/flaky answers and transport errors;
-       (d) system level: a full offline Bert-E (harness/lib/sysworld.py, mock git host) whose clone URL and
-           mask carry a sentinel credential, with the n-th git command of a job failed or hung by the shim
-           while printing the remote URL.
+       (d) system level: a full offline Bert-E (harness/lib/sysworld.py, mock git host) with a sentinel robot
+           password: BertE.__init__ computes the mask itself, `git_repo._url` is replaced by
+           https://bert-e:<quoted sentinel>@sentinel.invalid/owner/repo.git (the mock host's URL is a bare
+           path) and git's url.<path>.insteadOf maps it back to the bare repository; the n-th git command of
+           Bert-E's own Repository (not those the mock host runs to play the server) is failed or hung by the
+           shim while printing the remote URL; monitor only (no model at this level).
 Monitor: the extracted Spec.leaking (is a secret a substring of an emission?) on everything captured from
        the real code: the emissions above plus the fully formatted log records (logging.Formatter, with
        exc_info), traceback.format_exception of the escaping exception, job.as_json(), stdout/stderr,
@@ -313,6 +319,30 @@ def _facts_simplecmd(f):
     f['timeout_msg_fmt'] = _pieces(fmt)
     f['timeout_msg_cmd_masked'] = _masked(args[0], masker, command)
     f['timeout_link'] = _link(rzs[0], h0.name)
+    # clean-up after the timeout (killpg, second communicate): direct statements of the handler (an
+    # exception they raise escapes with the TimeoutExpired as context) or inside try/except Exception: pass
+    def is_cleanup(n):
+        d = ast.dump(n)
+        return 'killpg' in d or 'communicate' in d
+    direct = [n for n in h0.body if isinstance(n, ast.Expr) and is_cleanup(n)]
+    tries = [n for n in h0.body if isinstance(n, ast.Try)]
+    others = [n for n in h0.body if n not in direct and n not in tries and n is not rzs[0]
+              and not (isinstance(n, ast.Expr) and _is_log_call(n.value))]
+    if others:
+        raise ValueError('_do_cmd: unexpected statement in the timeout handler')
+    if direct and not tries:
+        f['timeout_cleanup_guarded'] = False
+    elif not direct and len(tries) == 1:
+        t = tries[0]
+        ok = (all(isinstance(n, ast.Expr) and is_cleanup(n) for n in t.body) and len(t.handlers) == 1
+              and (t.handlers[0].type is None or (isinstance(t.handlers[0].type, ast.Name)
+                                                  and t.handlers[0].type.id in ('Exception', 'BaseException')))
+              and all(isinstance(n, ast.Pass) for n in t.handlers[0].body) and not t.orelse and not t.finalbody)
+        if not ok:
+            raise ValueError('_do_cmd: unexpected try block in the timeout handler')
+        f['timeout_cleanup_guarded'] = True
+    else:
+        raise ValueError('_do_cmd: unexpected clean-up in the timeout handler')
     # generic handler: raise CommandError(mask(str(err))) [from ...]
     if not (len(h2.body) == 1 and isinstance(h2.body[0], ast.Raise) and isinstance(h2.body[0].exc, ast.Call)
             and h2.body[0].exc.func.id == 'CommandError' and len(h2.body[0].exc.args) == 1):
@@ -659,6 +689,7 @@ Definition exit_msg_cmd_masked : bool := %s.
 Definition timeout_debug_fmt : list string := %s.
 Definition timeout_msg_fmt : list string := %s.
 Definition timeout_msg_cmd_masked : bool := %s.
+Definition timeout_cleanup_guarded : bool := %s.
 Definition timeout_link : link_kind := %s.
 Definition oserr_msg_masked : bool := %s.
 Definition oserr_link : link_kind := %s.
@@ -695,7 +726,8 @@ Definition token_url_fmt : list string := %s.
        coq_str(f['mask_replacement']), L(f['cmd_debug_fmt']), coq_bool(f['cmd_debug_cmd_masked']),
        coq_bool(f['output_masked']), L(f['exit_debug_fmt']), L(f['exit_msg_fmt']),
        coq_bool(f['exit_msg_cmd_masked']), L(f['timeout_debug_fmt']), L(f['timeout_msg_fmt']),
-       coq_bool(f['timeout_msg_cmd_masked']), f['timeout_link'], coq_bool(f['oserr_msg_masked']),
+       coq_bool(f['timeout_msg_cmd_masked']), coq_bool(f['timeout_cleanup_guarded']), f['timeout_link'],
+       coq_bool(f['oserr_msg_masked']),
        f['oserr_link'], coq_str(f['command_error_name']),
        coq_bool(f['repo_sets_default_mask']), L(f['retry_debug_fmt']),
        coq_list('(%s, (%s, (%s, %s)))' % (coq_str(m), coq_str(c), coq_str(w), k) for m, c, w, k in f['wrappers']),
@@ -706,6 +738,7 @@ Definition token_url_fmt : list string := %s.
        coq_str(f['flaky_exception_name']), coq_bool(f['token_flow_prints_headers']), L(f['token_url_fmt']))
     ctx.extra['facts_switches'] = {
         'timeout_link': f['timeout_link'], 'oserr_link': f['oserr_link'],
+        'timeout_cleanup_guarded': f['timeout_cleanup_guarded'],
         'token_flow_prints_headers': f['token_flow_prints_headers'], 'mask_fn': f['mask_fn'],
         'url_password_fn': dict(f['url_password_fn'])}
     return {'Generated/Facts_C16.v': text}
@@ -766,10 +799,13 @@ def _setup_impl():
 
         def communicate(self, *a, **k):
             p = FaultyPopen.plan
+            self._calls = getattr(self, '_calls', 0) + 1
             if not self._fired and self._idx <= len(p) and p[self._idx - 1] is not None:
-                self._fired = True
-                super().communicate()
-                raise p[self._idx - 1]()
+                when, make = p[self._idx - 1]
+                if when == self._calls:
+                    self._fired = True
+                    super().communicate()
+                    raise make()
             return super().communicate(*a, **k)
 
     class _Proxy:
@@ -781,8 +817,18 @@ def _setup_impl():
     st.handed = []            # command lines git.py hands to simplecmd.cmd (observed at that boundary)
     real_cmd = git.cmd
 
+    st.shim_only_for = None   # system level: (mask, shim dir) - only the commands of Bert-E's own Repository
+                              # (recognised by its mask) are counted and faulted, not those the mock git
+                              # host runs in its private clone to play the server
+
     def recording_cmd(command, *a, **k):
         st.handed.append(command)
+        if st.shim_only_for is not None:
+            mask, shim = st.shim_only_for
+            if k.get('mask_pwd') == mask:
+                os.environ['GITSHIM_DIR'] = shim
+            else:
+                os.environ.pop('GITSHIM_DIR', None)
         return real_cmd(command, *a, **k)
     git.cmd = recording_cmd
     st.default_cmd_defaults = simplecmd.cmd.__defaults__
@@ -859,14 +905,14 @@ def impl_job(case):
     for i, (beh, out, err) in enumerate(case['atts'], 1):
         kind = beh[0]
         with open(os.path.join(d, 'plan.%d' % i), 'w') as fh:
-            fh.write(('exit %s' % beh[1] if kind == 'E' else 'hang' if kind == 'T' else 'exit 0') + '\n')
+            fh.write(('exit %s' % beh[1] if kind == 'E' else 'hang' if kind in 'TU' else 'exit 0') + '\n')
         if out:
             open(os.path.join(d, 'out.%d' % i), 'wb').write(out if isinstance(out, bytes) else out.encode())
         if err:
             open(os.path.join(d, 'err.%d' % i), 'wb').write(err if isinstance(err, bytes) else err.encode())
-        if kind == 'O':
+        if kind in 'OU':    # O: the first communicate raises; U: it times out and the one of the clean-up raises
             cls, msg = OS_ERRORS[beh[1]], beh[2]
-            plan.append((lambda cls=cls, msg=msg: cls(msg) if msg else cls()))
+            plan.append((1 if kind == 'O' else 2, (lambda cls=cls, msg=msg: cls(msg) if msg else cls())))
         else:
             plan.append(None)
     os.environ['GITSHIM_DIR'] = d
@@ -966,7 +1012,7 @@ def job_request(case, info, links='code'):
         elif beh[0] == 'T':
             b = 'T'
         else:
-            b = 'O%s:%s' % (hx(beh[1]), hx(beh[2]))
+            b = '%s%s:%s' % (beh[0], hx(beh[1]), hx(beh[2]))
         atts += [b, hx(out), hx(err)]
     tout = repr(case['timeout']) if isinstance(case['timeout'], float) else str(case['timeout'])
     return ' '.join(['job', links, hx(case['mask']), hx(info['cwd']), hx(info['handed'][0] if info['handed'] else ''),
@@ -1021,19 +1067,21 @@ def job_cases(ctx):
                    ('cmd', 'git remote add origin %s', (url,)), ('checkout', 'w/4.3/feature/x'),
                    ('push', 'w/4.3/feature/x'), ('push_all', False)]
             ops += [('cmd', f, ()) for f in free]
-            behs = [('E', 0), ('E', 1), ('E', 128), ('E', 255), ('T',)] + [('O',) + e for e in os_errs]
+            behs = [('E', 0), ('E', 1), ('E', 128), ('E', 255), ('T',)] + [('O',) + e for e in os_errs] \
+                + [('U',) + os_errs[1], ('U', 'OSError', '[Errno 3] No such process')]
             for debug in (True, False):
                 for bi, beh in enumerate(behs):
-                    if beh[0] == 'O':
-                        beh = ('O', beh[1], beh[2].replace('@S@', s))
+                    if beh[0] in 'OU':
+                        beh = (beh[0], beh[1], beh[2].replace('@S@', s))
                     # how many (op, out, err) variants per behaviour
-                    n = {'E': 6 if quick else 40, 'T': 1 if quick else 6, 'O': 2 if quick else 8}[beh[0]]
+                    n = {'E': 6 if quick else 40, 'T': 1 if quick else 6, 'O': 2 if quick else 8,
+                         'U': 1 if quick else 4}[beh[0]]
                     for _ in range(n):
                         op = rng.choice(ops[:6]) if rng.random() < 0.6 else rng.choice(ops)
                         out, err = rng.choice(outs), rng.choice(outs)
                         c = {'host': host, 'pclass': pclass, 'pwd': pwd, 'url': url, 'mask': mask, 'secret': s,
                              'op': op, 'debug': debug, 'retry': 0, 'atts': [(beh, out, err)],
-                             'timeout': 0.2 if beh[0] == 'T' else 10}
+                             'timeout': 0.2 if beh[0] in 'TU' else 10}
                         cases.append(c)
             # outside the text model, monitor only: bytes mode (universal_newlines=False) and output that is
             # not UTF-8 (the decoding error takes the generic except branch of _do_cmd)
@@ -1047,13 +1095,13 @@ def job_cases(ctx):
             # retries (only Repository.cmd takes retry=): failure, failure, then any ending
             for debug in (True, False):
                 for last in ([('E', 0), ('E', 2), ('T',)] if quick else behs):
-                    if last[0] == 'O':
-                        last = ('O', last[1], last[2].replace('@S@', s))
-                    first = rng.choice([('E', 1), ('T',), ('O', 'OSError', 'boom ' + s)])
+                    if last[0] in 'OU':
+                        last = (last[0], last[1], last[2].replace('@S@', s))
+                    first = rng.choice([('E', 1), ('T',), ('O', 'OSError', 'boom ' + s), ('U', 'ValueError', 'x')])
                     second = rng.choice([('E', 3), ('O', 'ValueError', s)])
                     atts = [(first, rng.choice(outs), rng.choice(outs)), (second, rng.choice(outs), ''),
                             (last, rng.choice(outs), rng.choice(outs))]
-                    hang = any(a[0][0] == 'T' for a in atts)
+                    hang = any(a[0][0] in 'TU' for a in atts)
                     cases.append({'host': host, 'pclass': pclass, 'pwd': pwd, 'url': url, 'mask': mask, 'secret': s,
                                   'op': ('cmd', 'git fetch --prune # %s' % s, ()), 'debug': debug, 'retry': 2,
                                   'atts': atts, 'timeout': 0.2 if hang else 10})
@@ -1436,7 +1484,6 @@ SYS_SCENARIO = [
     {'e': 'job_api', 'kind': 'delete_branch', 'args': {'branch': 'development/10.1'}, 'tag': 'api-delete-branch'},
     {'e': 'job_api', 'kind': 'eval_pr', 'args': {'pr_id': '@pr'}, 'tag': 'api-eval-pr'},
 ]
-SYS_JOBS = [i for i, ev in enumerate(SYS_SCENARIO) if ev['e'].startswith('job_')]
 
 
 class _SysWorld:
@@ -1519,7 +1566,7 @@ class _SysWorld:
                 "fatal: unable to access '@URL@/': The requested URL returned error: 403\n")
         del st.records[:]
         so, se = io.StringIO(), io.StringIO()
-        os.environ['GITSHIM_DIR'] = self.shim
+        st.shim_only_for = (self.mask, self.shim)
         os.environ['GITSHIM_URL'] = self.url
         b = w.berte
         n_comments = len(w.comments())
@@ -1532,6 +1579,7 @@ class _SysWorld:
                     guard -= 1
                     b.process_task()
         finally:
+            st.shim_only_for = None
             os.environ.pop('GITSHIM_DIR', None)
         try:
             count = int(open(os.path.join(self.shim, 'count')).read().strip())
@@ -1585,7 +1633,7 @@ def _sys_run(task):
         for ji, ev in enumerate(SYS_SCENARIO):
             fault = None
             if ev['e'].startswith('job_') and rng.random() < task['p_fault']:
-                top = task['counts'].get(ev['tag'], SYS_COUNT_GUESS)
+                top = max(1, task['counts'].get(ev['tag'], SYS_COUNT_GUESS))
                 n = rng.randint(1, min(8, top)) if rng.random() < 0.5 else rng.randint(1, max(1, top))
                 fault = (n, rng.choice(['fail', 'hang']))
             res = sw.step(ev, fault)
@@ -1620,7 +1668,7 @@ def check_system(ctx, pool, tasks=None):
         clean = _sys_summarise(ctx, pool.map(_sys_run, [{'seed': 0, 'debug': True, 'p_fault': 0.0, 'counts': {}}]))
         counts = {j['tag']: j['git_commands'] for j in clean}
         ctx.extra['system_git_commands_per_job'] = counts
-        n = 32 if ctx.quick else 640
+        n = 16 if ctx.quick else 400
         tasks = [{'seed': ctx.seed * 100003 + i + 1, 'debug': i % 2 == 0, 'p_fault': 0.6, 'counts': counts}
                  for i in range(n)]
     return _sys_summarise(ctx, pool.map(_sys_run, tasks, chunksize=1))
@@ -1644,7 +1692,7 @@ def _sys_summarise(ctx, results):
             ctx.count('sys:status=%s' % j['status'])
             if f and j['fired']:
                 ctx.seen_nontrivial(('sys', j['tag'], f[0], f[1], r['task']['debug']))
-                ctx.count('sys:faulted_cmd=git %s' % ' '.join(j['faulted_cmd'].split()[1:3]))
+                ctx.count('sys:faulted_cmd=git %s' % ' '.join(j['faulted_cmd'].split()[1:2]))
             if j['hits']:
                 what = ('credential visible after git command #%d (%s) of job %s was made to %s'
                         % (f[0], j['faulted_cmd'], j['tag'], f[1])) if f else \
@@ -1666,6 +1714,10 @@ CORPUS_CASES = {
     '02_F10_generic_error.json': {'kind': 'job', 'host': 'bitbucket', 'pclass': 'url-special', 'pwd': 'Zq9&t/p w',
                                'op': ['cmd', 'git clone --mirror %s', ['@URL@']], 'debug': True, 'retry': 0,
                                'atts': [[['O', 'OSError', '[Errno 5] Input/output error: @S@'], '', '']], 'timeout': 10},
+    '02b_F10_cleanup_error.json': {'kind': 'job', 'host': 'github', 'pclass': 'url-special', 'pwd': 'Zq9&t/p w',
+                                   'op': ['cmd', 'git fetch --prune # %s', ['@URL@']], 'debug': False, 'retry': 0,
+                                   'atts': [[['U', 'ValueError', 'undecodable partial output'], '', '']],
+                                   'timeout': 0.2},
     '03_F7_print_headers.json': {'kind': 'github', 'pwd': 'Zq9&t/p w', 'app': True, 'debug': False, 'method': 'GET',
                               'base_url': 'https://api.github.com', 'installation': 4242,
                               'url': 'https://api.github.com/repos/o/r/pulls/1',
@@ -1729,7 +1781,10 @@ def run(ctx, cases=None):
     ensure_corpus()
     _setup_impl()
     _setup_gh()
+    phases = ctx.extra.setdefault('phase_wall_s', {})
+    t0 = time.time()
     check_pure(ctx)
+    phases['pure'] = round(time.time() - t0, 1)
     corpus = []
     for name in sorted(os.listdir(CORPUS)):
         if name.endswith('.json'):
@@ -1740,11 +1795,17 @@ def run(ctx, cases=None):
     jobs = job_cases(ctx)
     ghs = gh_cases(ctx)
     with mp.Pool(16) as pool:
+        t0 = time.time()
         check_jobs(ctx, jobs, pool)
+        phases['jobs'] = round(time.time() - t0, 1)
+        t0 = time.time()
         check_gh(ctx, ghs, pool)
+        phases['github'] = round(time.time() - t0, 1)
     if os.environ.get('C16_NO_SYSTEM') != '1':
+        t0 = time.time()
         with mp.Pool(16, maxtasksperchild=4) as pool:
             check_system(ctx, pool)
+        phases['system'] = round(time.time() - t0, 1)
 
 
 def replay(ctx, data):
